@@ -104,8 +104,9 @@ func (r routecmd) build() []string {
 			}
 
 			// a registration that fabio's own route parser does not accept would make
-			// the whole routing table update fail: drop it on its own
-			if err := validateCommand(cfg); err != nil {
+			// the whole routing table update fail, and one it reads back as something
+			// else would route for a service that was never registered: drop it on its own
+			if err := validateCommand(cfg, name, route, dst, weight, svctags, ropts); err != nil {
 				log.Printf("[WARN] consul: Skipping route for service %q. Generated command %q is invalid: %s", name, cfg, err)
 				continue
 			}
@@ -116,15 +117,60 @@ func (r routecmd) build() []string {
 	return config
 }
 
-// validateCommand checks that cmd is exactly one 'route add' command
-// which fabio's own route parser and table construction accept.
-func validateCommand(cmd string) error {
+// validateCommand checks that cmd is exactly one 'route add' command which
+// fabio's own route parser and table construction accept, and that the parser
+// reads back from it the service, prefix, destination, weight, tags and options
+// it was generated from (names with blanks, tags with commas, quotes or
+// backslashes cannot be expressed in the command language).
+func validateCommand(cmd, service, src, dst, weight string, tags, opts []string) error {
 	defs, err := route.Parse(bytes.NewBufferString(cmd))
 	if err != nil {
 		return err
 	}
 	if len(defs) != 1 || defs[0].Cmd != route.RouteAddCmd {
 		return errors.New("not a single 'route add' command")
+	}
+	d := defs[0]
+	if d.Service != service || d.Src != src || d.Dst != dst {
+		return errors.New("service, prefix or destination cannot be expressed")
+	}
+	w := 0.0
+	if weight != "" {
+		if w, err = strconv.ParseFloat(weight, 64); err != nil {
+			return err
+		}
+	}
+	if d.Weight != w {
+		return errors.New("weight cannot be expressed")
+	}
+	// a single empty tag reads back as no tag
+	if len(tags) == 1 && tags[0] == "" {
+		tags = nil
+	}
+	if len(d.Tags) != len(tags) {
+		return errors.New("tags cannot be expressed")
+	}
+	for i := range tags {
+		if d.Tags[i] != tags[i] {
+			return errors.New("tags cannot be expressed")
+		}
+	}
+	// every option word has to come back as the key and value it was given as
+	want := map[string]string{}
+	for _, o := range opts {
+		if p := strings.SplitN(o, "=", 2); len(p) == 2 {
+			want[p[0]] = p[1]
+		} else {
+			want[o] = ""
+		}
+	}
+	if len(d.Opts) != len(want) {
+		return errors.New("options cannot be expressed")
+	}
+	for k, v := range want {
+		if got, ok := d.Opts[k]; !ok || got != v {
+			return errors.New("options cannot be expressed")
+		}
 	}
 	_, err = route.NewTable(bytes.NewBufferString(cmd))
 	return err
